@@ -147,6 +147,8 @@ def _is_numeric_constant(value: ast.expr) -> bool:
     Returns:
         True if value is a numeric constant
     """
+    if isinstance(value, ast.UnaryOp) and isinstance(value.op, (ast.USub, ast.UAdd)):
+        value = value.operand
     return isinstance(value, ast.Constant) and isinstance(value.value, (int, float))
 
 
